@@ -120,13 +120,13 @@ def adm(shape, hdd_bp, hdd_beta, hdd_k, cdd_bp, cdd_beta, cdd_k, T_min, T_max, T
     if shape == "tidd_cdd":
         return And(rng, T_min_seg <= cdd_bp, cdd_bp <= T_max_seg, cdd_beta > 0)
     if shape == "hdd_tidd_smooth":
-        return And(rng, T_min_seg <= hdd_bp, hdd_bp <= T_max_seg, hdd_beta < 0, hdd_k > 0, hdd_k <= 1000)
+        return And(rng, T_min_seg <= hdd_bp, hdd_bp <= T_max_seg, hdd_beta < 0, hdd_k > 0)
     if shape == "tidd_cdd_smooth":
-        return And(rng, T_min_seg <= cdd_bp, cdd_bp <= T_max_seg, cdd_beta > 0, cdd_k > 0, cdd_k <= 1000)
-    two = And(rng, T_min_seg <= hdd_bp, hdd_bp <= cdd_bp, cdd_bp <= T_max_seg, hdd_beta > 0, cdd_beta > 0,
-              # a balance point on the edge of the recorded range would have had its slope removed by the
-              # read-back step, so a stored two-sided model has both strictly inside (or coincident)
-              Or(hdd_bp == cdd_bp, And(T_min < hdd_bp, cdd_bp < T_max)))
+        return And(rng, T_min_seg <= cdd_bp, cdd_bp <= T_max_seg, cdd_beta > 0, cdd_k > 0)
+    # NOTE: C12 proves more of a FITTED two-sided model (both balance points strictly inside the recorded range
+    # unless they coincide: C12.bp_not_on_edge).  C11 quantifies over everything inside the optimiser's bounds,
+    # which includes a balance point exactly on the edge, so adm does not exclude it (see `edge_drop`).
+    two = And(rng, T_min_seg <= hdd_bp, hdd_bp <= cdd_bp, cdd_bp <= T_max_seg, hdd_beta > 0, cdd_beta > 0)
     if shape == "hdd_tidd_cdd":
         return two
     return And(two, 0 <= hdd_k, hdd_k <= 1, 0 <= cdd_k, cdd_k <= 1, Or(hdd_k > 0, cdd_k > 0))
@@ -143,6 +143,16 @@ def edge_corner(shape, hdd_bp, hdd_k, cdd_bp, cdd_k, T_min, T_max):
     if bpc is None:
         return Or(bph >= T_max, bph <= T_min)
     return And(bph == bpc, Or(bph >= T_max, bph <= T_min))
+
+
+def edge_drop(shape, hdd_bp, cdd_bp, T_min, T_max):
+    """Witness class of known finding C11-edge-drop: a two-sided shape with DISTINCT balance points one of which
+    lies on the edge of the recorded range.  The read-back step then removes that side's slope (and smoothing),
+    so the curve is one-sided: the claims about the line/asymptote beyond that balance point and about the
+    position of the smoothed joints do not hold there; monotonicity, continuity and the load identities do."""
+    if shape in ["hdd_tidd_cdd", "hdd_tidd_cdd_smooth"]:
+        return And(hdd_bp != cdd_bp, Or(cdd_bp >= T_max, hdd_bp <= T_min))
+    return False
 
 
 # ----------------------------------------------------------------------------- contract of the kernel
